@@ -3,8 +3,12 @@
 Three-way correspondence per case: the real `Context.get_formatted_value`, the heap-level model
 `FmtHeap.fmtHeap` (identity / sharing / no writes) and the tree-level model `Pypyr.fmtVal`
 (the function the C09 theorems are about). Monitors judged on the implementation alone:
-input and context unchanged (deep snapshot), same container types and shape, non-string leaves
-identical (`is`), brace-free => equal, idempotence on brace-free results.
+input and context unchanged (deep snapshot + key order + identity of every object in them), same container
+types and shape judged position by position, non-string leaves identical (`is`, same type) at their position,
+members formatted element-wise (a string / special tag at a position became what formatting that element on its
+own gives; set members matched existentially), brace-free => equal, idempotence on brace-free results.
+Stream `implonly-py` (values with arbitrary-Python `!py` strings, := at top level / in comprehensions / in
+lambdas) has NO model side: monitors only.
 """
 from .. import common
 from .. import impl_c09 as I
@@ -14,7 +18,8 @@ LEAN_MODULES = ['Props.C09']
 TRUSTED = ['harness/props/c09.py + harness/impl_c09.py (heap<->object builders, id-graph canonicaliser, monitors)',
            'CPython object identity (id, is), copy.deepcopy, ruamel.yaml round-trip loader']
 ASSUMPTIONS = [
-    'purity is claimed for values without side-effecting !py expressions (DESIGN 6)',
+    'purity is claimed for values without side-effecting !py expressions (DESIGN 6); an assignment expression is not '
+    'a side effect on the context (stream implonly-py: implementation-only monitors, no model side)',
     'heap model: !py only as a bare name; general !py results are covered by the tree-level model',
     'identity of str objects is compared for len >= 2 only; numbers/None/bytes by value + `is` monitor',
     'known open finding F9: classes whose constructor does not accept one iterable are rebuilt wrongly',
@@ -66,6 +71,8 @@ def check_cases(env, res, cases):
         tout = next(tree_out) if treq is not None else None
         stream = case['stream'].split(':')[0]
         res.count('stream:' + stream)
+        if case.get('twins') or case['stream'].startswith('directed:twins'):
+            res.count('feature:equal-but-distinct-hashable-siblings')
         res.count('outcome:' + ('ok' if 'ok' in iobs else iobs['err']))
         # ---- heap level
         if isinstance(hout, common.Reject):
@@ -91,7 +98,11 @@ def check_cases(env, res, cases):
             if 'err' in mobs and 'err' in iobs_cmp and mobs != iobs_cmp and multi_member_set(cells):
                 res.count('set-order-dependent-error')     # which member fails first is not an observable
             elif mobs != iobs_cmp:
-                res.mismatch(case, mobs, iobs_cmp, 'heap-level: id graph / value / error differ')
+                if ('ok' in mobs and 'ok' in iobs_cmp and multi_member_set(cells)
+                        and I.erase_member_classes(mobs) == I.erase_member_classes(iobs_cmp)):
+                    res.count('set-survivor-class-depends-on-iteration-order')
+                else:
+                    res.mismatch(case, mobs, iobs_cmp, 'heap-level: id graph / value / error differ')
         # ---- tree level
         if tout is None or isinstance(tout, common.Reject):
             res.count('tree-rejected:' + (str(tout)[:40] if tout is not None else 'unencodable'))
@@ -133,15 +144,33 @@ def check_f9(env, res, names=None):
         res.count('f9:' + name + (':violates' if fails else ':fine'))
 
 
+def check_py(env, res, cases):
+    """IMPLEMENTATION-ONLY: values with arbitrary-Python !py strings (assignment expressions at top level, in
+    comprehensions, in lambdas). No model side; the monitors of run_impl judge purity and shape."""
+    for case in cases:
+        res.case(case)
+        res.count('stream:implonly-py')
+        obs, fails = I.run_py_case(case)
+        res.count('implonly-py:outcome:' + ('ok' if 'ok' in obs else obs['err']))
+        for mon, detail in fails:
+            res.violation(case, detail, signature={'monitor': mon, 'stream': 'implonly-py'}, impl=obs)
+
+
 def run(env, res):
     res.rule = ('directed heaps (each container class x leaf kind x expression kind, shared sub-objects, the same '
                 'str object twice, memoised None, key/member collisions, unhashable results, special tags), yaml '
                 'documents with anchors and tags loaded by pypyr.yaml (CommentedMap/CommentedSeq), random DAG '
-                'heaps with sharing; non-trivial = distinct case that reached both sides; F9 classes: monitors only')
+                'heaps with sharing and with equal-but-distinct hashable siblings (tuples / frozensets over 1, 1.0, True, '
+                '0, 0.0, False, 2, 2.0, EqOpaque objects that are == but not `is`, sometimes the same object twice); '
+                'non-trivial = distinct case that reached both sides; F9 classes: monitors only; stream implonly-py '
+                '(IMPLEMENTATION-ONLY, no model side): values holding arbitrary-Python !py strings with := at top '
+                'level / in comprehensions / in lambdas, binding new names, context keys and mutable context objects')
     check_f9(env, res)
     cases = I.directed_cases()
     cases += [{'stream': 'yaml', 'yaml': y} for y in I.YAML_DIRECTED]
     check_cases(env, res, cases)
+    check_py(env, res, [dict(stream='implonly-py', **c) for c in I.PY_DIRECTED])
+    check_py(env, res, [I.random_py_case(env.rng) for _ in range(env.n(1500, 25000))])
     n_rand = env.n(2000, 60000)
     n_yaml = env.n(400, 6000)
     batch = []
@@ -163,5 +192,7 @@ def replay(env, res, case):
     case = case.get('case', case)
     if case.get('stream') == 'f9':
         check_f9(env, res, names=[case['cls']])
+    elif case.get('stream') == 'implonly-py':
+        check_py(env, res, [case])
     else:
         check_cases(env, res, [case])
